@@ -103,15 +103,18 @@ def check_case(program: tuple, resumes: tuple, restore_at: tuple, medium: str, e
             violate('run-raised', {'exc': type(exc).__name__, 'restored': restored}, repr(exc))
             return violations
         want = model(program, resumes)
+        plain_trace = list(want['trace'])
         for k in sorted(exit_restore_at, reverse=True):
             # the k-th RUNNING state is run() for k == 1 and step k-2 afterwards; a checkpoint taken when it is being left
-            # still holds that state, so the step runs once more (with the same arguments) after the restore
+            # still holds that state in the implementation as it stands, so the step runs once more (with the same
+            # arguments) after the restore.  A checkpoint that already holds the commanded next state is as good: the
+            # statement only asks for the commanded step to follow
             if k >= 2 and k - 2 < len(want['trace']):
                 want['trace'].insert(k - 2, want['trace'][k - 2])
         got = [(t[0], t[1], t[2]) for t in world.trace if t[3] == 'enter']
         if world.errors:
             violate('stuck', {'restored': restored}, world.errors)
-        if got != want['trace']:
+        if got != want['trace'] and got != plain_trace:
             # name the first disagreeing step and the command that preceded it
             k = next((i for i, (g, w) in enumerate(zip(got, want['trace'])) if g != w), min(len(got), len(want['trace'])))
             prev = program[k - 1][2][0] if 0 < k <= len(program) else None
